@@ -64,7 +64,13 @@ fn main() {
     }
     common::install_panic_hook();
     // Miri legs never match known findings: skip the (slow under the interpreter) JSON load
-    let known = if a.leg.as_deref().map_or(false, |l| l.starts_with("miri")) { KnownFindings::default() } else { KnownFindings::load(&a.verif_dir.join("known_findings.json")) };
+    // Miri legs only need the class-level entries (tools/known_extra.json, a few lines): parsing the full file with
+    // its hundreds of per-input entries is slow under the interpreter
+    let known = if a.leg.as_deref().map_or(false, |l| l.starts_with("miri")) {
+        KnownFindings::load(&a.verif_dir.join("tools").join("known_extra.json"))
+    } else {
+        KnownFindings::load(&a.verif_dir.join("known_findings.json"))
+    };
     let mut report = Report::new(&a.id, &a.tier, a.seed);
     let out = a.out_dir.clone().unwrap_or_else(|| a.verif_dir.clone());
     if let Some(path) = a.replay.clone() {
